@@ -118,6 +118,7 @@ fn handle(line: &str) -> Result<String, String> {
         "tt" => crate::cmds2::tt(&f),
         "limits" => crate::cmds2::limits(&f),
         "evalpair" => crate::cmds2::evalpair(&f),
+        "evalplay" => crate::cmds2::evalplay(&f),
         "blend" => crate::cmds2::blend(&f),
         "see" => crate::cmds2::see_cmd(&f),
         "san" => crate::cmds2::san_cmd(&f),
